@@ -408,6 +408,13 @@ pub fn run(ctx: &Ctx) -> Report {
             return report;
         }
     }
+    // ---------------- history family with small data files, one process for all passes, a reader between passes
+    if (ctx.shard == 2 % ctx.shards && replay.is_none()) || want_family.as_deref() == Some("history-small-files-no-restart") {
+        if let Err(e) = history_family_in(ctx, &cons, &u, &dl, "history-small-files-no-restart", &mut report) {
+            report.machinery_errors.push(format!("history family (small files, no restart): {e}"));
+            return report;
+        }
+    }
     // ---------------- crash family
     if replay.is_none() || want_family.as_deref() == Some("crash") {
         let only: Option<(usize, u64)> = replay.as_ref().map(|v| (v["deliver"].as_u64().unwrap() as usize, v["crash_at"].as_u64().unwrap()));
@@ -446,6 +453,29 @@ fn history_family(ctx: &Ctx, cons: &Consensus, u: &Universe, dl: &[(String, Bloc
 }
 
 fn history_family_in(ctx: &Ctx, cons: &Consensus, u: &Universe, dl: &[(String, BlockView)], fam: &str, report: &mut Report) -> Result<(), String> {
+    // variant "small-files-no-restart": 1500-byte data files (every pass rolls over), the process
+    // lives through all passes, and between two passes a reader fetches a frozen block that is not
+    // the newest item of the head file
+    let small = fam.contains("small-files");
+    let restarts = !fam.contains("no-restart");
+    if small {
+        ckb_freezer::VERIF_MAX_FILE_SIZE.store(POWER_LOSS_FILE_SIZE, std::sync::atomic::Ordering::SeqCst);
+    }
+    let r = match std::panic::catch_unwind(std::panic::AssertUnwindSafe(|| history_family_body(ctx, cons, u, dl, fam, restarts, report))) {
+        Ok(r) => r,
+        Err(p) => {
+            let msg = p.downcast_ref::<String>().cloned().or_else(|| p.downcast_ref::<&str>().map(|s| s.to_string())).unwrap_or_default();
+            report.violation("history/node-panicked", format!("{fam}: the freezing node panicked while blocks were delivered, frozen and read: {msg}"), json!({"family": fam}));
+            Ok(())
+        }
+    };
+    if small {
+        ckb_freezer::VERIF_MAX_FILE_SIZE.store(0, std::sync::atomic::Ordering::SeqCst);
+    }
+    r
+}
+
+fn history_family_body(ctx: &Ctx, cons: &Consensus, u: &Universe, dl: &[(String, BlockView)], fam: &str, restarts: bool, report: &mut Report) -> Result<(), String> {
     let fdir = ctx.scratch.join(format!("freezing-{fam}"));
     let _ = std::fs::remove_dir_all(&fdir);
     let mut f = Node::boot(&fdir, &freezing_opts(cons, &fdir))?;
@@ -471,7 +501,13 @@ fn history_family_in(ctx: &Ctx, cons: &Consensus, u: &Universe, dl: &[(String, B
         let num = check_policy(&f, tipn, prev_number, report, &label);
         let froze = num > prev_number;
         prev_number = num;
-        let fb = battery(f.shared.store(), u, cons, i + 1);
+        let fb = match std::panic::catch_unwind(std::panic::AssertUnwindSafe(|| battery(f.shared.store(), u, cons, i + 1))) {
+            Ok(b) => b,
+            Err(_) => {
+                report.violation("history/query-panicked", format!("a chain query panicked after the freeze pass that followed {name} (freezer number {num})"), label.clone());
+                return Ok(());
+            }
+        };
         let tb = battery(twin.shared.store(), u, cons, i + 1);
         compare_battery("store", &fb, &tb, u, num, report, &label);
         let fs = battery(f.shared.snapshot().as_ref(), u, cons, i + 1);
@@ -482,7 +518,19 @@ fn history_family_in(ctx: &Ctx, cons: &Consensus, u: &Universe, dl: &[(String, B
         if num > 1 {
             report.nontrivial.insert(fp(&(fam, i)));
         }
-        if froze {
+        if !restarts && num > 3 {
+            // a reader between two passes: a frozen block that is not the newest one
+            let snap = f.shared.snapshot();
+            // (the newest frozen block is number num - 1; the reader takes the two below it, the
+            // nearer one last)
+            for n in [num - 3, num - 2] {
+                if let Some(h) = snap.get_block_hash(n) {
+                    let _ = std::panic::catch_unwind(std::panic::AssertUnwindSafe(|| f.shared.store().get_block(&h)));
+                    report.count("reads_between_freeze_passes", 1);
+                }
+            }
+        }
+        if froze && restarts {
             // restart: answers must survive a re-open
             f.shutdown();
             f = Node::boot(&fdir, &freezing_opts(cons, &fdir)).map_err(|e| format!("re-open after freezing failed: {e}"))?;
